@@ -70,6 +70,7 @@ Definition table_mpf : list (string * handler) := [
   ("mpf_hash"%string, fun a => match a with [s; m; e; b] => Some [0; mpf_hash (Mpf s m e b)] | _ => None end);
   ("to_fixed"%string, fun a => match a with [s; m; e; b; p] => Some [0; to_fixed (Mpf s m e b) p] | _ => None end);
   ("bitcount"%string, fun a => match a with [n] => Some [0; bitcount n] | _ => None end);
+  ("from_str_parts"%string, fun a => match a with [m; e; p; r] => Some (out_res enc_mpf (from_str_parts m e p (rnd_of_Z r))) | _ => None end);
   ("isqrt"%string, fun a => match a with [n] => Some [0; Z.sqrt n] | _ => None end);
   ("sqrtrem"%string, fun a => match a with [n] => Some (let '(q, r) := Z.sqrtrem n in [0; q; r]) | _ => None end);
   ("trailing"%string, fun a => match a with [n] => Some [0; trailing n] | _ => None end);
